@@ -92,8 +92,10 @@ specialise(
     "C13",
     "a.headers",
     c13_headers,
-    {"pair": list(range(len(ALIAS_PAIRS)))},
-    timeout=300,
+    {"pair": list(range(len(ALIAS_PAIRS))), "with_lang": [False, True]},
+    skip_if=lambda fx: fx["with_lang"] and ALIAS_PAIRS[fx["pair"]][0] == "settings",
+    reach_if=lambda fx: not fx["with_lang"],
+    timeout=500,
     kernel=K[:2],
     shims=(),
     symbolic="upper/lower case of the first three characters, leading/trailing spaces, spaces before/after the language delimiter, language suffix present (8 symbolic booleans), 2-character symbolic language token",
